@@ -528,7 +528,7 @@ func (it *Interp) call(fr *frame, b *ssa.BasicBlock, idx int, pred *ssa.BasicBlo
 	}
 	name := "<dynamic>"
 	if cal != nil {
-		name = it.M.FuncName(cal)
+		name = it.canonName(cal)
 	} else if bn := model.BuiltinName(&ins.Call); bn != "" {
 		name = "builtin." + bn
 	} else if ins.Call.IsInvoke() {
@@ -562,7 +562,7 @@ func (it *Interp) call(fr *frame, b *ssa.BasicBlock, idx int, pred *ssa.BasicBlo
 		}
 	}
 	inl := cal != nil && len(cal.Blocks) > 0 && !it.Opaque[name] && (it.M.InDecimalPkg(cal) || it.M.InContextPkg(cal)) &&
-		(it.M.IsDecMethod(cal) || it.Inline[name])
+		(it.M.IsDecMethod(cal) || it.Inline[name] || it.receiverLike(cal) || pureScalar(cal))
 	if it.Traced[name] || !inl {
 		ev := snap
 		if it.Traced[name] || (cal != nil && it.M.InDecimalPkg(cal) && hasObj(args)) {
@@ -823,4 +823,59 @@ func binop(op token.Token, x, y Val, t types.Type) Val {
 	case token.LAND, token.LOR:
 	}
 	return TopV
+}
+
+// receiverLike: a plain function of package decimal whose first parameter is a *Decimal — a
+// method written as a function (uadd(z, x, y)). It is interpreted and named like the method.
+func (it *Interp) receiverLike(fn *ssa.Function) bool {
+	return fn.Signature.Recv() == nil && fn.Parent() == nil && it.M.InDecimalPkg(fn) && len(fn.Params) > 0 && it.M.IsDecPtr(fn.Params[0].Type())
+}
+
+// canonName: the name under which calls of fn are modelled, traced and reported: a receiver-like
+// function f(z, …) goes by "(*Decimal).f" unless a method of that name exists as well.
+func (it *Interp) canonName(fn *ssa.Function) string {
+	n := it.M.FuncName(fn)
+	if it.receiverLike(fn) {
+		if c := "(*Decimal)." + fn.Name(); it.M.TryLookup(c) == nil {
+			return c
+		}
+	}
+	return n
+}
+
+// pureScalar: parameters and results are all basic (integer, boolean, float, string) types, and the
+// body contains nothing but arithmetic, comparisons, conversions, φ, branches and returns: such
+// a helper (a clamp, a max, an enum mapping) is interpreted instead of being treated as unknown.
+func pureScalar(fn *ssa.Function) bool {
+	if fn.Signature.Recv() != nil || len(fn.Blocks) == 0 || len(fn.Blocks) > 12 {
+		return false
+	}
+	basic := func(t types.Type) bool {
+		_, ok := t.Underlying().(*types.Basic)
+		return ok
+	}
+	sig := fn.Signature
+	if sig.Results().Len() == 0 {
+		return false
+	}
+	for i := 0; i < sig.Params().Len(); i++ {
+		if !basic(sig.Params().At(i).Type()) {
+			return false
+		}
+	}
+	for i := 0; i < sig.Results().Len(); i++ {
+		if !basic(sig.Results().At(i).Type()) {
+			return false
+		}
+	}
+	for _, b := range fn.Blocks {
+		for _, in := range b.Instrs {
+			switch in.(type) {
+			case *ssa.BinOp, *ssa.UnOp, *ssa.Convert, *ssa.ChangeType, *ssa.Phi, *ssa.If, *ssa.Jump, *ssa.Return, *ssa.DebugRef:
+			default:
+				return false
+			}
+		}
+	}
+	return true
 }
